@@ -3,7 +3,7 @@ chi-square (C07).'''
 import ast
 
 from ..astutil import (dotted, call_name, receiver, txt, calls_in,
-                       walk_local, names_loaded)
+                       walk_local, names_loaded, enclosing_chain)
 from ..loader import AnalysisError
 from . import verdict as V
 
@@ -92,7 +92,7 @@ def _table_check(ctx, rule, func, expr, subject_pred, bound_pred, oracle,
     return table, erased
 
 
-def _const_return_guard(func, ret, data_attrs):
+def _const_return_guard(func, ret, data_attrs, names=frozenset()):
     '''Classify a constant return: "vacuous" (guarded by emptiness of the
     data), "unrelated" (guarded by something that is not the data) or
     "unguarded".'''
@@ -109,6 +109,8 @@ def _const_return_guard(func, ret, data_attrs):
                     call_name(c) == 'len' for c in ast.walk(test)
                     if isinstance(c, ast.Call)):
                 return 'vacuous', test
+            if V.mentions(test, names, ()):
+                return 'data', test
             return 'unrelated', test
         cur = par
 
@@ -149,10 +151,25 @@ def check_verd_dep(ctx, klass, method_names, data_attrs, rule='VERD-DEP'):
             val = ret.value
             construct = f'{name}: return {txt(val)[:70]}'
             if isinstance(val, ast.Constant):
-                kind, test = _const_return_guard(meth, ret, data_attrs)
+                kind, test = _const_return_guard(meth, ret, data_attrs,
+                                                 names)
+                if kind == 'unguarded' and id(ret) in V.early_exit_form(
+                        meth.node, lambda e: False) and all(
+                            _const_return_guard(meth, oth, data_attrs,
+                                                names)[0] == 'data'
+                            for oth in _returns(meth) if oth is not ret):
+                    kind = 'fallthrough'
                 if kind == 'vacuous':
                     ctx.holds(rule, meth, construct, at=meth.where(ret),
                               detail='constant for empty data')
+                elif kind == 'data':
+                    ctx.holds(rule, meth, construct, at=meth.where(ret),
+                              detail=f'early exit guarded by the recorded '
+                                     f'statistic: `{txt(test)[:60]}`')
+                elif kind == 'fallthrough':
+                    ctx.holds(rule, meth, construct, at=meth.where(ret),
+                              detail='fall-through of early exits that are '
+                                     'all guarded by the recorded statistic')
                 elif kind == 'unrelated':
                     ctx.violated(
                         rule, meth, construct, at=meth.where(ret),
@@ -202,6 +219,14 @@ def check_student(ctx):
                        bool(erased) and all(erased), at=func.where(cmp_expr),
                        detail='the verdict must be symmetric in the two '
                               'datasets: t and -t decide alike')
+    _check_raw_comparisons(
+        ctx, res, accept_names | {'test_pvalue'}, 'self.tstud',
+        lambda e: any(isinstance(n, ast.Attribute) and
+                      (dotted(n) or '').startswith('self.test')
+                      for n in ast.walk(e)),
+        {'lt': True, 'eq': False, 'gt': False, 'unordered': False},
+        '|t| vs threshold')
+
     # VERD-AGG
     def is_atom(expr):
         return isinstance(expr, ast.Call) and isinstance(
@@ -314,8 +339,145 @@ def check_student(ctx):
                        f'two-sided', ok, at=meth.where(ret),
                        detail='2 * upper tail of |t|')
     ctx.floor('SIDED', n_sided, 4, 'ppf / sf calls of TestStudent')
+    _check_law_guard(ctx, tst)
     # NAN-BOTH
     _check_nan_both(ctx, tst)
+
+
+def _check_law_guard(ctx, tst, rule='LAW-GUARD'):
+    '''The law behind the threshold and the p-value is Student's with the
+    requested ndf whenever ndf is given: (a) every use of the normal law
+    `norm` in a method that knows ndf is reached only when `ndf is None`
+    holds on the path (enclosing ifs and earlier early returns); a wider
+    selection (e.g. `ndf is None or ndf > N`) is a different law for some
+    requested ndf; (b) Student-law calls receive ndf itself as the
+    degrees of freedom.'''
+    n = 0
+    for meth in tst.methods.values():
+        knows = {x for x in ('ndf', 'self.ndf')
+                 if (x == 'ndf' and 'ndf' in meth.params) or (
+                     x == 'self.ndf' and V.mentions(meth.node, set(),
+                                                    ('self.ndf',)))}
+        if not knows:
+            continue
+        for node in walk_local(meth.node):
+            if isinstance(node, ast.Name) and node.id == 'norm' and \
+                    isinstance(node.ctx, ast.Load):
+                n += 1
+                conds = V.path_condition(meth.node, node)
+                construct = f'{meth.name}: normal law used'
+                if any(V.implies_is_none(t, p, knows) for t, p in conds):
+                    ctx.holds(rule, meth, construct, at=meth.where(node),
+                              detail='only when ndf is None')
+                    continue
+                about = [(t, p) for t, p in conds
+                         if V.mentions(t, {'ndf'}, ('self.ndf',))]
+                wider = [t for t, _ in about if any(
+                    isinstance(c, ast.Compare) and any(
+                        isinstance(o, (ast.Lt, ast.LtE, ast.Gt, ast.GtE,
+                                       ast.Eq, ast.NotEq)) for o in c.ops)
+                    for c in ast.walk(t))]
+                if wider or not about:
+                    ctx.violated(
+                        rule, meth, construct, at=meth.where(node),
+                        detail='the normal law is selected '
+                               + (f'when `{txt(wider[0])[:70]}`' if wider
+                                  else 'whatever ndf is')
+                               + ': for a given ndf the threshold / p-value '
+                                 'is no longer the one of the Student law '
+                                 'with ndf degrees of freedom')
+                else:
+                    ctx.undecided(rule, meth, construct,
+                                  at=meth.where(node),
+                                  detail=f'guards: '
+                                         f'{[txt(t)[:40] for t, _ in about]}')
+            if isinstance(node, ast.Call) and isinstance(
+                    node.func, ast.Attribute) and dotted(
+                        node.func.value) == 't' and node.func.attr in (
+                            'ppf', 'isf', 'sf', 'cdf', 'interval', 'pdf'):
+                n += 1
+                dfs = list(node.args[1:]) + [k.value for k in node.keywords
+                                             if k.arg == 'df']
+                construct = f'{meth.name}: {txt(node)[:60]} degrees of ' \
+                            f'freedom'
+                exact = [d for d in dfs if dotted(d) in knows]
+                about = [d for d in dfs
+                         if V.mentions(d, {'ndf'}, ('self.ndf',))]
+                ctx.decide(rule, meth, construct,
+                           True if exact else False if about else None,
+                           at=meth.where(node),
+                           detail='the Student law is taken with ndf itself')
+    ctx.floor(rule, n, 4, 'uses of the normal / Student law in methods '
+                          'that know ndf')
+
+
+def _check_raw_comparisons(ctx, klass, skip, data_attr, bound_pred, accept,
+                           what, rule='VERD-TABLE'):
+    '''Comparisons of the recorded statistic with the bound written OUTSIDE
+    the accept function, in a method that returns a verdict (a count of
+    failing bins, an early `return False`, ...).  Such a comparison decides
+    bins too: over the four orderings it must be the accept table or its
+    exact complement (the reject table, true on eq / gt / unordered); any
+    other table sends the NaN row or the equality row to the wrong side.
+    Polarity is not decided here (a swapped polarity fails every test).
+    Comparisons that only guard logging are not verdicts and are skipped.'''
+    reject = {k: not v for k, v in accept.items()}
+    for name, meth in klass.methods.items():
+        if name in skip or not any(
+                isinstance(n, ast.Return) for n in walk_local(meth.node)):
+            continue
+        derived = V.derived_names(meth.node, {data_attr})
+        parents = enclosing_chain(meth.node)
+        for node in walk_local(meth.node):
+            if not (isinstance(node, ast.Compare) or (
+                    isinstance(node, ast.Call) and
+                    call_name(node) in V._NPCMP)):
+                continue
+            if _only_logging(parents, node):
+                continue
+            erased = []
+
+            def role(operand):
+                inner, was = V.strip_sign_erasure(operand)
+                if V.mentions(inner, derived - {data_attr}, (data_attr,)):
+                    erased.append(was)
+                    return 'subject'
+                if bound_pred(operand):
+                    return 'bound'
+                return None
+            table = V.order_table(node, role)
+            if table is None:
+                continue
+            construct = f'{name}: raw comparison {txt(node)[:70]} ({what})'
+            ctx.decide(rule, meth, construct,
+                       table in (accept, reject), at=meth.where(node),
+                       detail={'table': V.fmt_table(table),
+                               'accept': V.fmt_table(accept),
+                               'reject': V.fmt_table(reject)})
+
+
+_LOG_METHODS = {'debug', 'info', 'warning', 'error', 'critical', 'log',
+                'exception'}
+
+
+def _only_logging(parents, node):
+    '''The comparison is the test of (or inside the test of) an `if` whose
+    branches hold nothing but logging calls.'''
+    cur = node
+    while True:
+        par = parents.get(id(cur))
+        if par is None or isinstance(par, ast.stmt):
+            break
+        cur = par
+    par = parents.get(id(cur))
+    if not isinstance(par, ast.If) or cur is not par.test:
+        return False
+
+    def logs_only(body):
+        return all(isinstance(s, ast.Pass) or (
+            isinstance(s, ast.Expr) and isinstance(s.value, ast.Call) and
+            call_name(s.value) in _LOG_METHODS) for s in body)
+    return logs_only(par.body) and logs_only(par.orelse)
 
 
 def _check_nan_both(ctx, tst):
